@@ -128,6 +128,23 @@ func (env *SpecEnv) eval(e Expr) *Val {
 		a, b := env.eval(e.A), env.eval(e.B)
 		return &Val{T: mkIte(c.T, a.T, b.T), Typ: a.Typ}
 	case *EField:
+		// pkg.Var: a global of another package
+		if id, ok := e.X.(*EIdent); ok {
+			if _, isVar := env.vars[id.Name]; !isVar && (env.pkg == nil || env.pkg.Scope().Lookup(id.Name) == nil) {
+				for _, p := range ex.ld.byName[id.Name] {
+					if _, ok := p.Scope().Lookup(e.Name).(*types.Var); ok {
+						n := *env
+						n.pkg = p
+						return n.ident(e.Name)
+					}
+					if _, ok := p.Scope().Lookup(e.Name).(*types.Const); ok {
+						n := *env
+						n.pkg = p
+						return n.ident(e.Name)
+					}
+				}
+			}
+		}
 		x := env.eval(e.X)
 		return env.field(x, e.Name, e)
 	case *EIndex:
